@@ -47,6 +47,7 @@ func init() {
 			{ID: "C11-R21", Title: "risor.Call runs the given code before it looks the function up (shared with C07-R13)", Floor: 1, Run: callRunsTheCodeFirst},
 			{ID: "C11-R22", Title: "a refused invocation writes nothing to the VM (shared with C06-R22)", Floor: 8, Run: refusedInvocationsWriteNothing},
 			{ID: "C11-R23", Title: "options that are refused are rolled back (shared with C07-R31)", Floor: 3, Run: refusedOptionsAreRolledBack},
+			{ID: "C11-R24", Title: "a Config is applied to the VM as a whole", Floor: 3, Run: theConfigurationIsAppliedAsAWhole},
 		},
 	})
 }
